@@ -75,6 +75,7 @@ package boltz
 //@   ensures[a-bucket-or-an-error] result != nil && result.ErrorHolderImpl != nil && (result.Err == nil ==> result.Bucket != nil)
 //@   ensures[the-nested-bucket] bucket.Err == nil && result.Err == nil ==> result.Bucket == bktSub[bucket.Bucket][name] && bktHas[bucket.Bucket][name]
 //@   ensures[existing-or-fresh] bucket.Err == nil && result.Err == nil ==> (old(bktHas[bucket.Bucket][name]) && old(bktSub[bucket.Bucket][name]) != 0 && result.Bucket == old(bktSub[bucket.Bucket][name])) || fresh(result.Bucket)
+//@   ensures[a-plain-key-of-that-name-is-an-error] bucket.Err == nil && old(bktHas[bucket.Bucket][name]) && old(bktSub[bucket.Bucket][name]) == 0 ==> result.Err != nil
 //@   ensures[other-keys-kept] forallStr(k, k != name ==> sel(bktHas[bucket.Bucket], k) == sel(old(bktHas[bucket.Bucket]), k) && sel(bktSub[bucket.Bucket], k) == sel(old(bktSub[bucket.Bucket]), k))
 //@   ensures[failed-atomically] bucket.Err == nil && result.Err != nil ==> bktHas[bucket.Bucket] == old(bktHas[bucket.Bucket]) && bktSub[bucket.Bucket] == old(bktSub[bucket.Bucket])
 // sxBase: the set index's base bucket; sxMember(base, v, row): row is listed under value v
